@@ -271,3 +271,27 @@ func addrOf(fv reflect.Value) reflect.Value {
 	p.Elem().Set(fv)
 	return p
 }
+
+// skipNilEmbedded wraps an index based append function of a field promoted through an embedded struct pointer: when a
+// pointer on the way to the field is nil the field is skipped (as encoding/json does) instead of panicking.
+func skipNilEmbedded(f appendFunc) appendFunc {
+	return func(fi *finfo, buf []byte, rv reflect.Value, addr uintptr, safe bool) ([]byte, any, appendStatus) {
+		if nilOnPath(rv, fi.index) {
+			return buf, nil, aSkip
+		}
+		return f(fi, buf, rv, addr, safe)
+	}
+}
+
+func nilOnPath(rv reflect.Value, index []int) bool {
+	for _, i := range index[:len(index)-1] {
+		rv = rv.Field(i)
+		if rv.Kind() == reflect.Ptr {
+			if rv.IsNil() {
+				return true
+			}
+			rv = rv.Elem()
+		}
+	}
+	return false
+}
